@@ -1,0 +1,57 @@
+// SPDX-License-Identifier: MIT OR Apache-2.0
+
+//! Verification hooks, compiled only with `--cfg p2panda_p2panda_verif` (off by default).
+//!
+//! * [`yield_point`] marks a place where another thread may run in between two statements which
+//!   have no `.await` between them. A deterministic simulator installs a thread-local handler and
+//!   decides there whether to suspend the calling task; without a handler the call returns
+//!   immediately.
+//! * [`crash_point`] marks a place where the process may die. A crash test arms one point by name
+//!   and occurrence; when it is reached the process aborts. Unarmed points do nothing.
+use std::cell::RefCell;
+use std::future::Future;
+use std::pin::Pin;
+use std::sync::Mutex;
+use std::sync::atomic::{AtomicU64, Ordering};
+
+type YieldFuture = Pin<Box<dyn Future<Output = ()>>>;
+type YieldHandler = Box<dyn Fn(&'static str) -> Option<YieldFuture>>;
+
+thread_local! {
+    static YIELD_HANDLER: RefCell<Option<YieldHandler>> = const { RefCell::new(None) };
+}
+
+/// Installs the handler consulted by [`yield_point`] on the current thread.
+pub fn set_yield_handler(handler: impl Fn(&'static str) -> Option<YieldFuture> + 'static) {
+    YIELD_HANDLER.with(|h| *h.borrow_mut() = Some(Box::new(handler)));
+}
+
+/// Removes the handler of the current thread.
+pub fn clear_yield_handler() {
+    YIELD_HANDLER.with(|h| *h.borrow_mut() = None);
+}
+
+/// A named scheduling point. Completes immediately unless a handler decides otherwise.
+pub async fn yield_point(name: &'static str) {
+    let future = YIELD_HANDLER.with(|h| h.borrow().as_ref().and_then(|handler| handler(name)));
+    if let Some(future) = future {
+        future.await;
+    }
+}
+
+static CRASH_ARMED: Mutex<Option<String>> = Mutex::new(None);
+static CRASH_COUNTDOWN: AtomicU64 = AtomicU64::new(0);
+
+/// Arms the crash point `name`: its `nth` occurrence (1 = the next one) aborts the process.
+pub fn arm_crash_point(name: &str, nth: u64) {
+    *CRASH_ARMED.lock().expect("crash point lock") = Some(name.to_string());
+    CRASH_COUNTDOWN.store(nth.max(1), Ordering::SeqCst);
+}
+
+/// A named crash point. Aborts the process when it was armed and its countdown reaches zero.
+pub fn crash_point(name: &'static str) {
+    let armed = CRASH_ARMED.lock().expect("crash point lock");
+    if armed.as_deref() == Some(name) && CRASH_COUNTDOWN.fetch_sub(1, Ordering::SeqCst) == 1 {
+        std::process::abort();
+    }
+}
